@@ -419,6 +419,15 @@ fn part_wire(max: u32) -> PartResult {
             }
         }
     }
+    // "yields an answer for every mask": host parts are not only dotted quads - a mask may
+    // carry colons (IPv6 literals) wherever the grammar lets a middle parameter carry them
+    for m in ["*!*@::1", "*!*@2001:db8:*", "a!*@*:*", "*!*@*:0.1", "a*!~u?@fe80::*"] {
+        for c in ["ban", "except", "invex", "speak"] {
+            for id in ["a", "ab"] {
+                cases.push((c, m.to_string(), id));
+            }
+        }
+    }
     let n = cases.len() as u64;
     let res = par_ranges(n, threads(), 8, |a, b| {
         let mut v = vec![];
